@@ -20,7 +20,8 @@ RULE = ('case = (JSON-like tree with placeholder strings at random depths, globa
         'Config/Chain constructions with placeholders in `uses` paths, context values and object-definition arguments. '
         'non-trivial = tree holds >=1 string with a defined placeholder at depth >=1; distinct = hash(tree, vars)')
 REQUIRED = ['trees', 'strings_substituted', 'strings_undefined_only', 'nonstring_leaves_checked', 'second_application',
-            'copies_checked', 'config_cases', 'uses_path_substituted', 'object_args_substituted', 'context_values_substituted']
+            'copies_checked', 'config_cases', 'uses_path_substituted', 'object_args_substituted', 'context_values_substituted',
+            'config_object_uses_checked', 'gv_style_property', 'gv_style_inherited', 'gv_style_module']
 ASSUMPTIONS = ['strings where a `{` occurs inside an open brace pair ({{A}}, {a{B}}) are ambiguous: only idempotence, type and '
                'non-interference are checked there',
                'mapping keys, tuples/sets, dunder attribute names and replacement values containing braces are outside the checked text oracle']
@@ -37,6 +38,49 @@ class GV:
     def __init__(self, d):
         for k, v in d.items():
             setattr(self, k, v)
+
+
+GV_STYLES = ['dict', 'ordered_dict', 'instance', 'class_attrs', 'inherited', 'property', 'namespace', 'module', 'mixed', 'slots']
+
+
+def make_gv(vars_, style):
+    """global_vars holding exactly vars_: a mapping, or an object whose attributes (however they are defined) are the names"""
+    import collections
+    import types
+    if style in (False, 'dict'):
+        return dict(vars_)
+    if style in (True, 'instance'):
+        return GV(vars_)
+    if style == 'ordered_dict':
+        return collections.OrderedDict(vars_)
+    if style == 'class_attrs':
+        return type('GVClass', (), dict(vars_))()
+    if style == 'inherited':
+        base = type('GVBase', (), dict(vars_))
+        return type('GVChild', (base,), {})()
+    if style == 'property':
+        ns = {k: property(lambda self, _v=v: _v) for k, v in vars_.items()}
+        return type('GVProp', (), ns)()
+    if style == 'namespace':
+        return types.SimpleNamespace(**vars_)
+    if style == 'module':
+        m = types.ModuleType('gv_settings')
+        for k, v in vars_.items():
+            setattr(m, k, v)
+        return m
+    if style == 'mixed':
+        items = list(vars_.items())
+        obj = type('GVMixed', (), dict(items[::2]))()
+        for k, v in items[1::2]:
+            setattr(obj, k, v)
+        return obj
+    if style == 'slots':
+        cls = type('GVSlots', (), {'__slots__': tuple(vars_)})
+        obj = cls()
+        for k, v in vars_.items():
+            setattr(obj, k, v)
+        return obj
+    raise ValueError(style)
 
 
 def ref_sub(s, vars_):
@@ -121,7 +165,8 @@ def str_likeness(s, plain, res, wit):
 def check_tree(tree, vars_, as_object, res: CaseResult, rng):
     from taskchain.utils.data import search_and_replace_placeholders
     orig = copy.deepcopy(tree)
-    gv = GV(vars_) if as_object else dict(vars_)
+    gv = make_gv(vars_, as_object)
+    res.count(f'gv_style_{as_object if isinstance(as_object, str) else ("instance" if as_object else "dict")}')
     wit = {'tree': orig, 'vars': {k: repr(v) for k, v in vars_.items()}, 'as_object': as_object}
     work = copy.deepcopy(tree)
     try:
@@ -218,8 +263,8 @@ def check_config_case(rng, res: CaseResult):
         sub = rng.choice(['cfgs', 'c d', 'ünï', 'x1'])
         (tmp / sub).mkdir()
         vars_ = {'DIR': str(tmp / sub), 'A': rng.choice(['va', '1', 'x/y', 'é']), 'NUM': rng.randint(0, 99), 'B': 'bb'}
-        as_object = rng.random() < 0.5
-        gv = GV(vars_) if as_object else dict(vars_)
+        as_object = rng.choice(GV_STYLES)
+        gv = make_gv(vars_, as_object)
         nested = {'deep': ['{A}', {'k': 'pre-{B}-{U}'}], 'n': 3}
         used = {'tasks': [], 'used_param': 'u-{A}', 'nested': nested}
         fmt = rng.choice(['json', 'yaml'])
@@ -253,6 +298,18 @@ def check_config_case(rng, res: CaseResult):
             def run(self, used_param, nested) -> dict:
                 return {'used_param': used_param, 'nested': nested}
 
+        class UsedObjProbe(Task):
+            class Meta:
+                parameters = [Parameter('uo_own'), Parameter('uo_ctx', default=None), Parameter('uo_nested', default=None)]
+
+            def run(self, uo_own, uo_ctx, uo_nested) -> dict:
+                return {'uo_own': uo_own, 'uo_ctx': uo_ctx, 'uo_nested': uo_nested}
+
+        # a ready-made Config object in `uses` (prepared once on construction and again by the chain that uses it)
+        # (not with a module as global_vars: the library deep-copies `uses` entries when it instantiates objects and python cannot copy modules;
+        #  construction then fails loudly with TypeError, nothing is substituted wrongly)
+        uses_object = rng.random() < 0.6 and as_object != 'module'
+        uo_ns = rng.choice([None, 'nso'])
         used['tasks'] = []
         root_data = {
             'tasks': [Probe],
@@ -263,13 +320,26 @@ def check_config_case(rng, res: CaseResult):
         }
         ctx_kind = rng.choice(['dict', 'list'])
         ctx_dict = {'ctx_param': 'c-{A}-{U}'}
+        uo_in_ctx = uses_object and rng.random() < 0.7
+        if uo_in_ctx:
+            ctx_dict['uo_ctx'] = 'uoc-{A}-{U}'
+            ctx_dict['uo_nested'] = {'l': ['{B}', {'d': '{DIR}/x'}], 'n': 1}
         context = ctx_dict if ctx_kind == 'dict' else [ctx_dict, str(ctx_file)]
         if ctx_kind == 'dict':
             root_data['ctx_file_param'] = 'cf-{A}-{NUM}'
         wit = {'vars': {k: repr(v) for k, v in vars_.items()}, 'as_object': as_object, 'root': {k: v for k, v in root_data.items() if k != 'tasks'},
                'ctx_kind': ctx_kind, 'fmt': fmt}
+        def with_object(data):
+            data = copy.deepcopy(data)
+            if uses_object:
+                uo_data = {'tasks': [UsedObjProbe], 'uo_own': 'uo-{A}-{NUM}'}
+                if not uo_in_ctx:
+                    uo_data['uo_ctx'] = 'plain-{B}'
+                data['uses'] = data['uses'] + [Config(tmp / 'data', name='usedobj', data=uo_data, global_vars=gv, namespace=uo_ns)]
+            return data
+        wit['uses_object'] = [uses_object, uo_ns, uo_in_ctx]
         try:
-            cfg = Config(tmp / 'data', name='root', data=copy.deepcopy(root_data), global_vars=gv, context=context)
+            cfg = Config(tmp / 'data', name='root', data=with_object(root_data), global_vars=gv, context=context)
             # the used file declares no tasks itself; mount a task on it through a second config built from the file
             chain = cfg.chain()
         except Exception as e:
@@ -303,6 +373,15 @@ def check_config_case(rng, res: CaseResult):
             res.count('context_values_substituted')
         if got.get('obj_path') == exp['obj_path'] and got.get('obj_items') == exp['obj_items']:
             res.count('object_args_substituted')
+        if uses_object:
+            uv = json.loads(json.dumps(chain[(uo_ns + '::' if uo_ns else '') + 'used_obj_probe'].value))
+            exp_uo = {'uo_own': ref_sub('uo-{A}-{NUM}', vars_),
+                      'uo_ctx': ref_sub('uoc-{A}-{U}', vars_) if uo_in_ctx else ref_sub('plain-{B}', vars_),
+                      'uo_nested': {'l': [vars_['B'], {'d': ref_sub('{DIR}/x', vars_)}], 'n': 1} if uo_in_ctx else None}
+            for k in exp_uo:
+                if uv.get(k) != exp_uo[k]:
+                    res.violate(f'task of a Config object in `uses` received {k}={uv.get(k)!r}, expected substituted value {exp_uo[k]!r}', witness=wit)
+            res.count('config_object_uses_checked')
         # persistence representation keeps the placeholder form
         prm = task.params._parameters['own']
         if prm.value_repr() != "'o-{A}/{NUM}/{U}'":
@@ -314,7 +393,7 @@ def check_config_case(rng, res: CaseResult):
         if vars_['A'] in obj_repr.replace('PObj', '') and '{A}' not in obj_repr:
             res.violate(f'parameter-object repr uses substituted text: {obj_repr!r}', witness=wit)
         # config copied: repr of values must survive (C11 last sentence)
-        cc = copy.deepcopy(cfg)
+        cc = copy.deepcopy(cfg) if as_object != 'module' else copy.copy(cfg)
         res.count('copies_checked')
         if repr(cc['own']) != repr(cfg['own']) or str(cc['own']) != str(cfg['own']):
             res.violate(f'after deepcopy of the Config the value `own` has repr {cc["own"]!r} (before: {cfg["own"]!r})',
@@ -325,7 +404,8 @@ def check_config_case(rng, res: CaseResult):
         # a chain built from a *copied* config must address the same storage
         try:
             k1 = task.name_for_persistence
-            chain2 = copy.deepcopy(Config(tmp / 'data', name='root', data=copy.deepcopy(root_data), global_vars=gv, context=context)).chain()
+            cfg2 = Config(tmp / 'data', name='root', data=with_object(root_data), global_vars=gv, context=context)
+            chain2 = (cfg2 if as_object == 'module' else copy.deepcopy(cfg2)).chain()      # python cannot copy module objects
             k2 = chain2['probe'].name_for_persistence
             if k1 != k2:
                 res.violate(f'chain built from a deep-copied config uses another storage key ({k2} vs {k1}): representation did not survive the copy',
@@ -350,7 +430,7 @@ def run_case(case) -> CaseResult:
             tree = gen_tree(rng, defined)
             if rng.random() < 0.1:
                 tree = gen_string(rng, defined)
-            check_tree(tree, vars_, rng.random() < 0.5, res, rng)
+            check_tree(tree, vars_, rng.choice(GV_STYLES), res, rng)
             if i == 0:
                 res.sample = {'tree': tree, 'vars': {k: repr(v) for k, v in vars_.items()}}
     else:
